@@ -23,6 +23,7 @@ def main(argv):
   replay = None
   if '--replay' in argv:
     replay = argv[argv.index('--replay') + 1]
+    os.environ['VERIF_REPLAY'] = '1'   # a replay does not rewrite evidence/<id>.json (it writes <id>.replay.json)
   os.environ['VERIF_TIER'] = tier
   mod = importlib.import_module('props.%s' % pid.lower())
   return mod.run(tier, replay)
